@@ -9,9 +9,24 @@ open PdfVerif PdfVerif.Lexer
 
 /-! ### token serialisation of an object tree -/
 
+/-- An object as WRITTEN: like `SObj`, but an indirect reference still has its generation number
+    (which `PDFObjRef` does not keep). -/
+inductive PObj where
+  | null
+  | bool (b : Bool)
+  | int (v : Int)
+  | real (text : Bytes)
+  | str (s : Bytes)
+  | lit (name : Bytes)
+  | kwd (name : Bytes)
+  | arr (items : List PObj)
+  | dict (entries : List (Bytes × PObj))
+  | ref (objid gen : Int)
+  deriving Repr, Inhabited
+
 mutual
-/-- The token sequence every conformant spelling of the tree lexes to (`n 0 R` for a reference). -/
-def ser : SObj → List Token
+/-- The token sequence every conformant spelling of the tree lexes to (`n g R` for a reference). -/
+def ser : PObj → List Token
   | .null => [.kwd kwNull]
   | .bool b => [.bool b]
   | .int v => [.int v]
@@ -21,18 +36,23 @@ def ser : SObj → List Token
   | .kwd n => [.kwd n]
   | .arr items => Token.kwd [91] :: (serList items ++ [Token.kwd [93]])
   | .dict es => Token.kwd [60, 60] :: (serEntries es ++ [Token.kwd [62, 62]])
-  | .ref n => [.int n, .int 0, .kwd kwR]
-def serList : List SObj → List Token
+  | .ref n g => [.int n, .int g, .kwd kwR]
+def serList : List PObj → List Token
   | [] => []
   | o :: r => ser o ++ serList r
-def serEntries : List (Bytes × SObj) → List Token
+def serEntries : List (Bytes × PObj) → List Token
   | [] => []
   | (k, v) :: r => Token.lit k :: (ser v ++ serEntries r)
 end
 
+def isNullP : PObj → Bool
+  | .null => true
+  | _ => false
+
 mutual
-/-- The value read back: a dictionary entry whose value is null is absent (ISO 32000-1 7.3.7). -/
-def norm : SObj → SObj
+/-- The value read back: a dictionary entry whose value is null is absent (ISO 32000-1 7.3.7); a
+    reference keeps its object number. -/
+def norm : PObj → SObj
   | .arr items => .arr (normList items)
   | .dict es => .dict (normEntries es)
   | .null => .null
@@ -42,121 +62,169 @@ def norm : SObj → SObj
   | .str s => .str s
   | .lit n => .lit n
   | .kwd n => .kwd n
-  | .ref n => .ref n
-def normList : List SObj → List SObj
+  | .ref n _ => .ref n
+def normList : List PObj → List SObj
   | [] => []
   | o :: r => norm o :: normList r
-def normEntries : List (Bytes × SObj) → List (Bytes × SObj)
+def normEntries : List (Bytes × PObj) → List (Bytes × SObj)
   | [] => []
-  | (k, v) :: r => if isNullS v then normEntries r else (k, norm v) :: normEntries r
+  | (k, v) :: r => if isNullP v then normEntries r else (k, norm v) :: normEntries r
 end
 
-def keysOf : List (Bytes × SObj) → List Bytes
+def keysOf : List (Bytes × PObj) → List Bytes
   | [] => []
   | (k, _) :: r => k :: keysOf r
 
 mutual
 /-- Trees in the domain: no bare keywords, dictionary keys distinct and UTF-8. -/
-def clean : SObj → Prop
+def clean : PObj → Prop
   | .kwd _ => False
   | .arr items => cleanList items
   | .dict es => cleanEntries es ∧ (keysOf es).Nodup ∧ ∀ k ∈ keysOf es, utf8Valid k = true
   | _ => True
-def cleanList : List SObj → Prop
+def cleanList : List PObj → Prop
   | [] => True
   | o :: r => clean o ∧ cleanList r
-def cleanEntries : List (Bytes × SObj) → Prop
+def cleanEntries : List (Bytes × PObj) → Prop
   | [] => True
   | (_, v) :: r => clean v ∧ cleanEntries r
 end
 
 /-- the operand stack holding the entries of a dictionary being read -/
-def pairsOf : List (Bytes × SObj) → List SObj
+def pairsOf : List (Bytes × PObj) → List SObj
   | [] => []
   | (k, v) :: r => .lit k :: norm v :: pairsOf r
 
-/-- inside an open array / dictionary, no error so far -/
-def Inside (st : PState) : Prop := st.error = none ∧ st.context ≠ []
+/-- no error so far, and the end of a loop iteration will not flush: a container is open, or the
+    dialect never flushes -/
+def Quiet (D : Dialect) (st : PState) : Prop := st.error = none ∧ (D.flushes = true → st.context ≠ [])
 
-theorem feedAll_append (st : PState) (a b : List Token) : feedAll st (a ++ b) = feedAll (feedAll st a) b := by
-  simp [feedAll, List.foldl_append]
+/-- what the theorems need from a dialect's `do_keyword` -/
+structure GoodDialect (D : Dialect) : Prop where
+  null : ∀ st, D.doKeyword st kwNull = push st .null
+  ref : ∀ (st : PState) (cs : List SObj) (n g : Int), st.curstack = cs ++ [.int n, .int g] →
+    D.doKeyword st kwR = push { st with curstack := cs } (.ref n)
 
-theorem feedAll_cons (st : PState) (t : Token) (r : List Token) : feedAll st (t :: r) = feedAll (feed st t) r := rfl
+theorem ref_drop_take (cs : List SObj) (n g : Int) :
+    (cs ++ [SObj.int n, SObj.int g]).length - 2 = cs.length ∧
+    (cs ++ [SObj.int n, SObj.int g]).drop cs.length = [SObj.int n, SObj.int g] ∧
+    (cs ++ [SObj.int n, SObj.int g]).take cs.length = cs := by
+  refine ⟨by simp, by rw [List.drop_left], by rw [List.take_left]⟩
 
-theorem feedAll_nil (st : PState) : feedAll st [] = st := rfl
+theorem good_stream : GoodDialect streamDialect := by
+  constructor
+  · intro st
+    have e7 : (kwNull == kwR) = false := by decide
+    simp [streamDialect, doKeyword, e7]
+  · intro st cs n g h
+    obtain ⟨h1, h2, h3⟩ := ref_drop_take cs n g
+    simp [streamDialect, doKeyword, h, h2, h3, push]
+    intro hlt; omega
 
-theorem inside_push (st : PState) (o : SObj) (h : Inside st) : Inside (push st o) := by
-  simpa [Inside, push] using h
+theorem good_obj : GoodDialect objDialect := by
+  constructor
+  · intro st
+    have e1 : (kwNull == kwXref) = false := by decide
+    have e2 : (kwNull == kwStartxref) = false := by decide
+    have e3 : (kwNull == kwEndobj) = false := by decide
+    simp [objDialect, doKeywordP, e1, e2, e3]
+  · intro st cs n g h
+    obtain ⟨h1, h2, h3⟩ := ref_drop_take cs n g
+    have e1 : (kwR == kwXref) = false := by decide
+    have e2 : (kwR == kwStartxref) = false := by decide
+    have e3 : (kwR == kwEndobj) = false := by decide
+    have e4 : (kwR == kwNull) = false := by decide
+    simp [objDialect, doKeywordP, e1, e2, e3, e4, h, h2, h3, push]
+    intro hlt; omega
+
+theorem feedAllWith_append (D : Dialect) (st : PState) (a b : List Token) :
+    feedAllWith D st (a ++ b) = feedAllWith D (feedAllWith D st a) b := by
+  simp [feedAllWith, List.foldl_append]
+
+theorem feedAllWith_cons (D : Dialect) (st : PState) (t : Token) (r : List Token) :
+    feedAllWith D st (t :: r) = feedAllWith D (feedWith D st t) r := rfl
+
+theorem feedAllWith_nil (D : Dialect) (st : PState) : feedAllWith D st [] = st := rfl
+
+theorem quiet_push {D : Dialect} (st : PState) (o : SObj) (h : Quiet D st) : Quiet D (push st o) := by
+  simpa [Quiet, push] using h
 
 theorem isEmpty_false_of_ne {α} {l : List α} (h : l ≠ []) : l.isEmpty = false := by
   cases l with
   | nil => exact absurd rfl h
   | cons _ _ => rfl
 
-theorem feed_int (st : PState) (v : Int) (h : Inside st) : feed st (.int v) = push st (.int v) := by
-  simp [feed, h.1, push, isEmpty_false_of_ne h.2]
-theorem feed_real (st : PState) (t : Bytes) (h : Inside st) : feed st (.real t) = push st (.real t) := by
-  simp [feed, h.1, push, isEmpty_false_of_ne h.2]
-theorem feed_bool (st : PState) (b : Bool) (h : Inside st) : feed st (.bool b) = push st (.bool b) := by
-  simp [feed, h.1, push, isEmpty_false_of_ne h.2]
-theorem feed_str (st : PState) (s : Bytes) (h : Inside st) : feed st (.str s) = push st (.str s) := by
-  simp [feed, h.1, push, isEmpty_false_of_ne h.2]
-theorem feed_lit (st : PState) (n : Bytes) (h : Inside st) : feed st (.lit n) = push st (.lit n) := by
-  simp [feed, h.1, push, isEmpty_false_of_ne h.2]
+/-- under `Quiet` the flush test at the end of an iteration fails -/
+theorem quiet_noflush {D : Dialect} {st : PState} (h : Quiet D st) : (st.context.isEmpty && D.flushes) = false := by
+  cases hf : D.flushes with
+  | false => simp
+  | true => simp [isEmpty_false_of_ne (h.2 hf)]
 
-theorem feed_null (st : PState) (h : Inside st) : feed st (.kwd kwNull) = push st .null := by
+theorem feed_int {D : Dialect} (st : PState) (v : Int) (h : Quiet D st) : feedWith D st (.int v) = push st (.int v) := by
+  have := quiet_noflush h
+  simp_all [feedWith, h.1, push]
+theorem feed_real {D : Dialect} (st : PState) (t : Bytes) (h : Quiet D st) : feedWith D st (.real t) = push st (.real t) := by
+  have := quiet_noflush h
+  simp_all [feedWith, h.1, push]
+theorem feed_bool {D : Dialect} (st : PState) (b : Bool) (h : Quiet D st) : feedWith D st (.bool b) = push st (.bool b) := by
+  have := quiet_noflush h
+  simp_all [feedWith, h.1, push]
+theorem feed_str {D : Dialect} (st : PState) (s : Bytes) (h : Quiet D st) : feedWith D st (.str s) = push st (.str s) := by
+  have := quiet_noflush h
+  simp_all [feedWith, h.1, push]
+theorem feed_lit {D : Dialect} (st : PState) (n : Bytes) (h : Quiet D st) : feedWith D st (.lit n) = push st (.lit n) := by
+  have := quiet_noflush h
+  simp_all [feedWith, h.1, push]
+
+theorem feed_null {D : Dialect} (hD : GoodDialect D) (st : PState) (h : Quiet D st) :
+    feedWith D st (.kwd kwNull) = push st .null := by
   have e1 : (kwNull == [91]) = false := by decide
   have e2 : (kwNull == [93]) = false := by decide
   have e3 : (kwNull == [60, 60]) = false := by decide
   have e4 : (kwNull == [62, 62]) = false := by decide
   have e5 : (kwNull == [123]) = false := by decide
   have e6 : (kwNull == [125]) = false := by decide
-  have e7 : (kwNull == kwR) = false := by decide
-  simp [feed, h.1, e1, e2, e3, e4, e5, e6, doKeyword, e7, push, isEmpty_false_of_ne h.2]
+  have hq := quiet_noflush h
+  have hq' : ((push st SObj.null).context.isEmpty && D.flushes) = false := by simpa [push] using hq
+  simp [feedWith, h.1, e1, e2, e3, e4, e5, e6, hD.null, hq']
 
-theorem feed_ref (st : PState) (n : Int) (h : Inside st) :
-    feedAll st [.int n, .int 0, .kwd kwR] = push st (.ref n) := by
-  have h1 := inside_push st (.int n) h
-  have h2 := inside_push (push st (.int n)) (.int 0) h1
-  simp only [feedAll_cons, feedAll_nil, feed_int st n h, feed_int _ 0 h1]
+theorem feed_ref {D : Dialect} (hD : GoodDialect D) (st : PState) (n g : Int) (h : Quiet D st) :
+    feedAllWith D st [.int n, .int g, .kwd kwR] = push st (.ref n) := by
+  have h1 := quiet_push st (.int n) h
+  have h2 := quiet_push (push st (.int n)) (.int g) h1
+  simp only [feedAllWith_cons, feedAllWith_nil, feed_int st n h, feed_int _ g h1]
   have e1 : (kwR == [91]) = false := by decide
   have e2 : (kwR == [93]) = false := by decide
   have e3 : (kwR == [60, 60]) = false := by decide
   have e4 : (kwR == [62, 62]) = false := by decide
   have e5 : (kwR == [123]) = false := by decide
   have e6 : (kwR == [125]) = false := by decide
-  have hlen : (st.curstack ++ [SObj.int n] ++ [SObj.int 0]).length - 2 = st.curstack.length := by simp
-  have hd : (st.curstack ++ [SObj.int n] ++ [SObj.int 0]).drop st.curstack.length = [SObj.int n, SObj.int 0] := by
-    rw [List.append_assoc, List.drop_left]; rfl
-  have ht : (st.curstack ++ [SObj.int n] ++ [SObj.int 0]).take st.curstack.length = st.curstack := by
-    rw [List.append_assoc, List.take_left]
-  simp only [feed, h2.1, push, Option.isSome_none, Bool.false_eq_true, if_false, e1, e2, e3, e4, e5, e6, doKeyword,
-    beq_self_eq_true, if_true, hlen, hd, ht]
-  have h3 : ¬ (st.curstack.length + 2 < 2) := by omega
-  have hc : st.context ≠ [] := h.2
-  simp [h3, h.1, hc]
+  have hcs : (push (push st (.int n)) (.int g)).curstack = st.curstack ++ [.int n, .int g] := by simp [push]
+  have hk := hD.ref _ _ n g hcs
+  have hq := quiet_noflush h
+  simp only [feedWith, h2.1, Option.isSome_none, Bool.false_eq_true, if_false, e1, e2, e3, e4, e5, e6, hk]
+  simp [push, h.1, hq]
 
-theorem feed_open (st : PState) (h : Inside st ∨ (st.error = none ∧ st.context = [])) (name : Bytes) (t : Ctx)
+theorem feed_open {D : Dialect} (st : PState) (herr : st.error = none) (name : Bytes) (t : Ctx)
     (hn : (name = [91] ∧ t = .a) ∨ (name = [60, 60] ∧ t = .d)) :
-    feed st (.kwd name) = startType st t ∧ Inside (startType st t) := by
-  have herr : st.error = none := by rcases h with h | h <;> exact h.1
-  refine ⟨?_, by simp [Inside, startType, herr]⟩
+    feedWith D st (.kwd name) = startType st t ∧ Quiet D (startType st t) := by
+  refine ⟨?_, by simp [Quiet, startType, herr]⟩
   rcases hn with ⟨rfl, rfl⟩ | ⟨rfl, rfl⟩
-  · simp [feed, herr, startType]
+  · simp [feedWith, herr, startType]
   · have e1 : (([60, 60] : Bytes) == [91]) = false := by decide
     have e2 : (([60, 60] : Bytes) == [93]) = false := by decide
-    simp [feed, herr, startType, e1, e2]
+    simp [feedWith, herr, startType, e1, e2]
 
 /-- what the end of one loop iteration does with a completed object `o` -/
-def closed (st : PState) (o : SObj) : PState :=
-  if st.context.isEmpty then { st with results := st.results ++ (st.curstack ++ [o]), curstack := [] }
+def closed (D : Dialect) (st : PState) (o : SObj) : PState :=
+  if st.context.isEmpty && D.flushes then flushHold (push st o)
   else push st o
 
-theorem closed_inside (st : PState) (o : SObj) (h : Inside st) : closed st o = push st o := by
-  simp [closed, isEmpty_false_of_ne h.2]
+theorem closed_quiet {D : Dialect} (st : PState) (o : SObj) (h : Quiet D st) : closed D st o = push st o := by
+  simp [closed, quiet_noflush h]
 
-theorem isNullS_norm (v : SObj) : isNullS (norm v) = isNullS v := by
-  cases v <;> simp [norm, isNullS]
+theorem isNullS_norm (v : PObj) : isNullS (norm v) = isNullP v := by
+  cases v <;> simp [norm, isNullS, isNullP]
 
 theorem dictSet_fresh (k : Bytes) (v : SObj) : ∀ (acc : List (Bytes × SObj)), k ∉ acc.map (·.1) →
     dictSet k v acc = acc ++ [(k, v)]
@@ -168,21 +236,7 @@ theorem dictSet_fresh (k : Bytes) (v : SObj) : ∀ (acc : List (Bytes × SObj)),
     simp only [dictSet, hne, Bool.false_eq_true, if_false, List.cons_append]
     rw [dictSet_fresh k v r (by simp only [List.map_cons, List.mem_cons, not_or] at h; exact h.2)]
 
-theorem keys_normEntries (es : List (Bytes × SObj)) : ∀ k ∈ (normEntries es).map (·.1), k ∈ keysOf es := by
-  induction es with
-  | nil => simp [normEntries]
-  | cons e r ih =>
-    obtain ⟨k0, v0⟩ := e
-    intro k hk
-    simp only [normEntries] at hk
-    split at hk
-    · simp [keysOf, ih k hk]
-    · simp only [List.map_cons, List.mem_cons] at hk
-      rcases hk with rfl | hk
-      · simp [keysOf]
-      · simp [keysOf, ih k hk]
-
-theorem buildDict_pairs : ∀ (es : List (Bytes × SObj)) (acc : List (Bytes × SObj)),
+theorem buildDict_pairs : ∀ (es : List (Bytes × PObj)) (acc : List (Bytes × SObj)),
     (keysOf es).Nodup → (∀ k ∈ keysOf es, utf8Valid k = true) → (∀ k ∈ keysOf es, k ∉ acc.map (·.1)) →
     buildDict (pairsOf es) acc = some (acc ++ normEntries es)
   | [], acc, _, _, _ => by simp [pairsOf, buildDict, normEntries]
@@ -191,7 +245,7 @@ theorem buildDict_pairs : ∀ (es : List (Bytes × SObj)) (acc : List (Bytes × 
     have hk : utf8Valid k = true := hu k (by simp [keysOf])
     have hfr : k ∉ acc.map (·.1) := hf k (by simp [keysOf])
     simp only [pairsOf, buildDict, hk, if_true, isNullS_norm, normEntries]
-    by_cases hn : isNullS v = true
+    by_cases hn : isNullP v = true
     · simp only [hn, if_true]
       exact buildDict_pairs r acc hnd.2 (fun k' h' => hu k' (by simp [keysOf, h'])) (fun k' h' => hf k' (by simp [keysOf, h']))
     · simp only [hn, Bool.false_eq_true, if_false]
@@ -202,79 +256,194 @@ theorem buildDict_pairs : ∀ (es : List (Bytes × SObj)) (acc : List (Bytes × 
         simp only [List.map_append, List.map_cons, List.map_nil, List.mem_append, List.mem_singleton, not_or]
         exact ⟨hf k' (by simp [keysOf, h']), fun e => hnd.1 (e ▸ h')⟩
 
-theorem pairsOf_even (es : List (Bytes × SObj)) : (pairsOf es).length % 2 = 0 := by
+theorem pairsOf_even (es : List (Bytes × PObj)) : (pairsOf es).length % 2 = 0 := by
   induction es with
   | nil => rfl
   | cons e r ih => obtain ⟨k, v⟩ := e; simp only [pairsOf, List.length_cons]; omega
 
-theorem feed_close_arr (st : PState) (objs : List SObj) (herr : st.error = none) :
-    feed { startType st .a with curstack := objs } (.kwd [93]) = closed st (.arr objs) := by
+theorem feed_close_arr {D : Dialect} (st : PState) (objs : List SObj) (herr : st.error = none) :
+    feedWith D { startType st .a with curstack := objs } (.kwd [93]) = closed D st (.arr objs) := by
   have e1 : (([93] : Bytes) == [91]) = false := by decide
-  simp only [feed, startType, herr, Option.isSome_none, Bool.false_eq_true, if_false, e1, beq_self_eq_true, if_true,
+  simp only [feedWith, startType, herr, Option.isSome_none, Bool.false_eq_true, if_false, e1, beq_self_eq_true, if_true,
     endType, bne_self_eq_false, push, closed]
 
-theorem feed_close_dict (st : PState) (es : List (Bytes × SObj)) (herr : st.error = none)
+theorem feed_close_dict {D : Dialect} (st : PState) (es : List (Bytes × PObj)) (herr : st.error = none)
     (hnd : (keysOf es).Nodup) (hu : ∀ k ∈ keysOf es, utf8Valid k = true) :
-    feed { startType st .d with curstack := pairsOf es } (.kwd [62, 62]) = closed st (.dict (normEntries es)) := by
+    feedWith D { startType st .d with curstack := pairsOf es } (.kwd [62, 62]) = closed D st (.dict (normEntries es)) := by
   have e1 : (([62, 62] : Bytes) == [91]) = false := by decide
   have e2 : (([62, 62] : Bytes) == [93]) = false := by decide
   have e3 : (([62, 62] : Bytes) == [60, 60]) = false := by decide
   have hb := buildDict_pairs es [] hnd hu (by simp)
   have hev := pairsOf_even es
   simp only [List.nil_append] at hb
-  simp only [feed, startType, herr, Option.isSome_none, Bool.false_eq_true, if_false, e1, e2, e3, beq_self_eq_true,
+  simp only [feedWith, startType, herr, Option.isSome_none, Bool.false_eq_true, if_false, e1, e2, e3, beq_self_eq_true,
     if_true, endType, bne_self_eq_false, push, closed, hev, hb]
 
-theorem inside_curstack (st : PState) (cs : List SObj) (h : Inside st) : Inside { st with curstack := cs } := by
-  simpa [Inside] using h
-
 mutual
-/-- Inside an open container, the tokens of any clean tree push exactly its value. -/
-theorem feed_ser : ∀ (v : SObj) (st : PState), Inside st → clean v → feedAll st (ser v) = push st (norm v)
-  | .null, st, h, _ => by simp [ser, feedAll_cons, feedAll_nil, feed_null st h, norm]
-  | .bool b, st, h, _ => by simp [ser, feedAll_cons, feedAll_nil, feed_bool st b h, norm]
-  | .int v, st, h, _ => by simp [ser, feedAll_cons, feedAll_nil, feed_int st v h, norm]
-  | .real t, st, h, _ => by simp [ser, feedAll_cons, feedAll_nil, feed_real st t h, norm]
-  | .str s, st, h, _ => by simp [ser, feedAll_cons, feedAll_nil, feed_str st s h, norm]
-  | .lit n, st, h, _ => by simp [ser, feedAll_cons, feedAll_nil, feed_lit st n h, norm]
+/-- While no flush can happen, the tokens of any clean tree push exactly its value. -/
+theorem feed_ser {D : Dialect} (hD : GoodDialect D) : ∀ (v : PObj) (st : PState), Quiet D st → clean v →
+    feedAllWith D st (ser v) = push st (norm v)
+  | .null, st, h, _ => by simp [ser, feedAllWith_cons, feedAllWith_nil, feed_null hD st h, norm]
+  | .bool b, st, h, _ => by simp [ser, feedAllWith_cons, feedAllWith_nil, feed_bool st b h, norm]
+  | .int v, st, h, _ => by simp [ser, feedAllWith_cons, feedAllWith_nil, feed_int st v h, norm]
+  | .real t, st, h, _ => by simp [ser, feedAllWith_cons, feedAllWith_nil, feed_real st t h, norm]
+  | .str s, st, h, _ => by simp [ser, feedAllWith_cons, feedAllWith_nil, feed_str st s h, norm]
+  | .lit n, st, h, _ => by simp [ser, feedAllWith_cons, feedAllWith_nil, feed_lit st n h, norm]
   | .kwd _, _, _, hc => by simp [clean] at hc
-  | .ref n, st, h, _ => by simp only [ser, norm]; exact feed_ref st n h
+  | .ref n g, st, h, _ => by simp only [ser, norm]; exact feed_ref hD st n g h
   | .arr items, st, h, hc => by
-    have ho := feed_open st (Or.inl h) [91] .a (Or.inl ⟨rfl, rfl⟩)
+    have ho := feed_open (D := D) st h.1 [91] .a (Or.inl ⟨rfl, rfl⟩)
     simp only [clean] at hc
-    simp only [ser, feedAll_cons, ho.1, feedAll_append]
-    rw [feed_serList items (startType st .a) ho.2 hc]
-    simp only [feedAll_cons, feedAll_nil]
+    simp only [ser, feedAllWith_cons, ho.1, feedAllWith_append]
+    rw [feed_serList hD items (startType st .a) ho.2 hc]
+    simp only [feedAllWith_cons, feedAllWith_nil]
     have e : ({ startType st .a with curstack := (startType st .a).curstack ++ normList items } : PState)
         = { startType st .a with curstack := normList items } := by simp [startType]
-    rw [e, feed_close_arr st (normList items) h.1, closed_inside st _ h, norm]
+    rw [e, feed_close_arr st (normList items) h.1, closed_quiet st _ h, norm]
   | .dict es, st, h, hc => by
-    have ho := feed_open st (Or.inl h) [60, 60] .d (Or.inr ⟨rfl, rfl⟩)
+    have ho := feed_open (D := D) st h.1 [60, 60] .d (Or.inr ⟨rfl, rfl⟩)
     simp only [clean] at hc
-    simp only [ser, feedAll_cons, ho.1, feedAll_append]
-    rw [feed_serEntries es (startType st .d) ho.2 hc.1]
-    simp only [feedAll_cons, feedAll_nil]
+    simp only [ser, feedAllWith_cons, ho.1, feedAllWith_append]
+    rw [feed_serEntries hD es (startType st .d) ho.2 hc.1]
+    simp only [feedAllWith_cons, feedAllWith_nil]
     have e : ({ startType st .d with curstack := (startType st .d).curstack ++ pairsOf es } : PState)
         = { startType st .d with curstack := pairsOf es } := by simp [startType]
-    rw [e, feed_close_dict st es h.1 hc.2.1 hc.2.2, closed_inside st _ h, norm]
-theorem feed_serList : ∀ (vs : List SObj) (st : PState), Inside st → cleanList vs →
-    feedAll st (serList vs) = { st with curstack := st.curstack ++ normList vs }
-  | [], st, _, _ => by simp [serList, feedAll_nil, normList]
+    rw [e, feed_close_dict st es h.1 hc.2.1 hc.2.2, closed_quiet st _ h, norm]
+theorem feed_serList {D : Dialect} (hD : GoodDialect D) : ∀ (vs : List PObj) (st : PState), Quiet D st → cleanList vs →
+    feedAllWith D st (serList vs) = { st with curstack := st.curstack ++ normList vs }
+  | [], st, _, _ => by simp [serList, feedAllWith_nil, normList]
   | o :: r, st, h, hc => by
     simp only [cleanList] at hc
-    simp only [serList, feedAll_append]
-    rw [feed_ser o st h hc.1, feed_serList r (push st (norm o)) (inside_push st _ h) hc.2]
+    simp only [serList, feedAllWith_append]
+    rw [feed_ser hD o st h hc.1, feed_serList hD r (push st (norm o)) (quiet_push st _ h) hc.2]
     simp [push, normList]
-theorem feed_serEntries : ∀ (es : List (Bytes × SObj)) (st : PState), Inside st → cleanEntries es →
-    feedAll st (serEntries es) = { st with curstack := st.curstack ++ pairsOf es }
-  | [], st, _, _ => by simp [serEntries, feedAll_nil, pairsOf]
+theorem feed_serEntries {D : Dialect} (hD : GoodDialect D) : ∀ (es : List (Bytes × PObj)) (st : PState), Quiet D st →
+    cleanEntries es → feedAllWith D st (serEntries es) = { st with curstack := st.curstack ++ pairsOf es }
+  | [], st, _, _ => by simp [serEntries, feedAllWith_nil, pairsOf]
   | (k, v) :: r, st, h, hc => by
     simp only [cleanEntries] at hc
-    simp only [serEntries, feedAll_cons, feedAll_append, feed_lit st k h]
-    have h1 := inside_push st (.lit k) h
-    rw [feed_ser v (push st (.lit k)) h1 hc.1,
-        feed_serEntries r (push (push st (.lit k)) (norm v)) (inside_push _ _ h1) hc.2]
+    simp only [serEntries, feedAllWith_cons, feedAllWith_append, feed_lit st k h]
+    have h1 := quiet_push st (.lit k) h
+    rw [feed_ser hD v (push st (.lit k)) h1 hc.1,
+        feed_serEntries hD r (push (push st (.lit k)) (norm v)) (quiet_push _ _ h1) hc.2]
     simp [push, pairsOf]
 end
+
+/-! ### PDFParser.nextobject as used by `getobj` -/
+
+theorem doKeywordP_results (st : PState) (name : Bytes) :
+    ∃ extra, (doKeywordP st name).results = st.results ++ extra := by
+  unfold doKeywordP
+  split
+  · exact ⟨_, rfl⟩
+  split
+  · exact ⟨_, rfl⟩
+  split
+  · exact ⟨[], by simp [push]⟩
+  split
+  · simp only []
+    split
+    · exact ⟨[], by simp⟩
+    · split <;> exact ⟨[], by simp [push]⟩
+  split
+  · exact ⟨[], by simp⟩
+  · exact ⟨[], by simp [push]⟩
+
+theorem endType_results (st : PState) (t : Ctx) (objs : List SObj) (st' : PState)
+    (h : endType st t = some (objs, st')) : st'.results = st.results := by
+  unfold endType at h
+  split at h
+  · simp at h
+  · split at h
+    · simp at h
+    · simp only [Option.some.injEq, Prod.mk.injEq] at h
+      rw [← h.2]
+
+/-- the tail of one loop iteration never removes results (objDialect: it never flushes) -/
+theorem feedWith_obj_results (st : PState) (t : Token) :
+    ∃ extra, (feedWith objDialect st t).results = st.results ++ extra := by
+  have tail : ∀ (st1 : PState), (∃ extra, st1.results = st.results ++ extra) →
+      ∃ extra, (if st1.error.isSome = true then st1
+        else if (st1.context.isEmpty && objDialect.flushes) = true then
+          flushHold st1 else st1).results = st.results ++ extra := by
+    intro st1 h
+    simp only [objDialect, Bool.and_false, Bool.false_eq_true, if_false]
+    split <;> exact h
+  unfold feedWith
+  split
+  · exact ⟨[], by simp⟩
+  · apply tail
+    cases t with
+    | int v => exact ⟨[], by simp [push]⟩
+    | real v => exact ⟨[], by simp [push]⟩
+    | bool v => exact ⟨[], by simp [push]⟩
+    | str v => exact ⟨[], by simp [push]⟩
+    | lit v => exact ⟨[], by simp [push]⟩
+    | err k => exact ⟨[], by simp⟩
+    | kwd name =>
+      simp only
+      split
+      · exact ⟨[], by simp [startType]⟩
+      split
+      · split
+        · rename_i h1; exact ⟨[], by simp [push, endType_results _ _ _ _ h1]⟩
+        · exact ⟨[], by simp⟩
+      split
+      · exact ⟨[], by simp [startType]⟩
+      split
+      · split
+        · rename_i h1
+          have hr := endType_results _ _ _ _ h1
+          split
+          · exact ⟨[], by simp [hr]⟩
+          · split
+            · exact ⟨[], by simp [push, hr]⟩
+            · exact ⟨[], by simp [hr]⟩
+        · exact ⟨[], by simp⟩
+      split
+      · exact ⟨[], by simp [startType]⟩
+      split
+      · split
+        · rename_i h1; exact ⟨[], by simp [push, endType_results _ _ _ _ h1]⟩
+        · exact ⟨[], by simp⟩
+      · exact doKeywordP_results st name
+
+theorem feedWith_obj_mono (st : PState) (t : Token) :
+    ((feedWith objDialect st t).results = [] → st.results = []) ∧
+    ((feedWith objDialect st t).error = none → st.error = none) := by
+  constructor
+  · intro h
+    obtain ⟨extra, he⟩ := feedWith_obj_results st t
+    rw [he] at h
+    exact (List.append_eq_nil_iff.mp h).1
+  · intro h
+    by_cases he : st.error.isSome = true
+    · simp only [feedWith, he, if_true] at h
+      rw [h] at he; simp at he
+    · simpa using he
+
+theorem feedAllWith_obj_mono : ∀ (a : List Token) (st : PState),
+    (feedAllWith objDialect st a).results = [] → (feedAllWith objDialect st a).error = none →
+    st.results = [] ∧ st.error = none
+  | [], st, h1, h2 => ⟨h1, h2⟩
+  | t :: r, st, h1, h2 => by
+    have ih := feedAllWith_obj_mono r (feedWith objDialect st t) h1 h2
+    have hm := feedWith_obj_mono st t
+    exact ⟨hm.1 ih.1, hm.2 ih.2⟩
+
+theorem nextobjectP_prefix : ∀ (a b : List Token) (st : PState),
+    (feedAllWith objDialect st a).results = [] → (feedAllWith objDialect st a).error = none →
+    nextobjectP st (a ++ b) = nextobjectP (feedAllWith objDialect st a) b
+  | [], b, st, _, _ => rfl
+  | t :: r, b, st, h1, h2 => by
+    have hst := feedAllWith_obj_mono (t :: r) st h1 h2
+    have ih := nextobjectP_prefix r b (feedWith objDialect st t) h1 h2
+    simp only [List.cons_append, nextobjectP, hst.1, hst.2, Option.isSome_none, List.isEmpty_nil, Bool.not_true,
+      Bool.or_self, Bool.false_eq_true, if_false]
+    exact ih
+
+theorem nextobjectP_done (st : PState) (toks : List Token) (h : st.results ≠ []) : nextobjectP st toks = some st := by
+  have : st.results.isEmpty = false := isEmpty_false_of_ne h
+  cases toks <;> simp [nextobjectP, this]
 
 end PdfVerif.StackParser
